@@ -278,11 +278,13 @@ def cases(tier, seed):
             for lazy in (None, True):
                 add("trunc", font=rel, flavour=fl, lazy=lazy)
             add("corrupt", font=rel, flavour=fl)
+            add("corrupt-fields", font=rel, flavour=fl)
     for rel in _NATIVE:
         if _exists(rel):
             for lazy in (None, True):
                 add("trunc", font=rel, flavour="native", lazy=lazy)
             add("corrupt", font=rel, flavour="native")
+            add("corrupt-fields", font=rel, flavour="native")
     larger = [p for p in _OPEN_LARGE if _exists(p)]
     if not T:
         larger = larger[seed % 3::3][:3]
@@ -309,14 +311,15 @@ def cases(tier, seed):
         rest = [r for r in pool if r not in chosen]
         rnd.shuffle(rest)
         chosen += rest[:10]
+    short = list(range(2, 17)) if T else [4, 8, 9, 11, 13]
     for r in chosen:
         if r["size"] > 6000:
             # charstring-heavy fonts take seconds per damaged variant: a few tables per case
             step = 2 if r["size"] > 40000 else 5
             for i in range(0, len(r["tables"]), step):
-                add("payload", font=r["path"], tags=r["tables"][i:i + step], tagkey="+".join(r["tables"][i:i + step]))
+                add("payload", font=r["path"], tags=r["tables"][i:i + step], tagkey="+".join(r["tables"][i:i + step]), short=short)
         else:
-            add("payload", font=r["path"], tags=None)
+            add("payload", font=r["path"], tags=None, short=short)
 
     # ---- clause 3 --------------------------------------------------------------------------
     npay = len(GT.payloads("", 0))
@@ -587,6 +590,25 @@ def run_corrupt(case, ctx, rnd):
                   "corruptions": n}
 
 
+def run_corrupt_fields(case, ctx, rnd):
+    """Header and directory count / length / offset fields set to boundary values."""
+    _cur["seen_mech"] = set()
+    data, container = _container_bytes(case, ctx)
+    if data is None:
+        return
+    n = 0
+    for off, repl, desc in GF.field_corruptions(data):
+        d = bytearray(data)
+        d[off:off + len(repl)] = repl
+        for lazy in (None, True):
+            _probe_open(ctx, bytes(d), lazy, container, "corruption",
+                        {"font": case["font"], "flavour": case["flavour"], "field": desc, "lazy": lazy})
+        n += 1
+        ctx.nontrivial("cf:%s:%s:%s" % (case["font"][-14:], case["flavour"], desc[6:30]))
+    ctx.note("clause1:field corruptions", n)
+    ctx.sample = {"kind": "corrupt-fields", "font": case["font"], "container": container, "fields_x_values": n}
+
+
 def run_zoo(case, ctx, rnd):
     from fontTools.ttLib import TTFont, TTCollection, TTLibError
 
@@ -657,7 +679,8 @@ def _probe_open_garbage(ctx, blob, lazy, container, where):
 
 # ------------------------------------------------------------------ clause 2
 def _mask_head(tag, b):
-    return b[:8] + b[12:] if tag == "head" else b
+    # checkSumAdjustment (bytes 8..11) is rewritten by every writer - when the table is long enough to have it
+    return b[:8] + b[12:] if tag == "head" and len(b) >= 12 else b
 
 
 def run_payload(case, ctx, rnd):
@@ -794,7 +817,7 @@ def run_payload(case, ctx, rnd):
     for tag in tags:
         if tag not in tabs:
             continue
-        for dname, dbytes in GF.payload_damages(tabs[tag], rnd):
+        for dname, dbytes in GF.payload_damages(tabs[tag], rnd, short=case.get("short") or (4, 8, 10, 13)):
             # damaged counts can send a decompiler into very long loops: bound each variant separately
             try:
                 with _deadline(40):
